@@ -188,11 +188,8 @@ where
         for (key, cache) in self.cache.iter() {
             let key_bytes = key.encode_vec();
             let cache_bytes = cache.encode_vec();
-            if cache.is_old(block_number) {
-                #[cfg(brc20_prog_verif)]
-                crate::verif::failpoint("cached/history.delete");
-                self.cache_db.delete(&key_bytes)?;
-            } else {
+            let is_old = cache.is_old(block_number);
+            if !is_old {
                 #[cfg(brc20_prog_verif)]
                 crate::verif::failpoint("cached/history.put");
                 self.cache_db.put(&key_bytes, &cache_bytes)?;
@@ -206,6 +203,14 @@ where
                 #[cfg(brc20_prog_verif)]
                 crate::verif::failpoint("cached/latest.delete");
                 self.db.delete(&key_bytes)?;
+            }
+
+            // A history that is dropped goes after its latest value: while the history row exists,
+            // a repeated reorg still finds the key and rewrites the latest value
+            if is_old {
+                #[cfg(brc20_prog_verif)]
+                crate::verif::failpoint("cached/history.delete");
+                self.cache_db.delete(&key_bytes)?;
             }
         }
 
